@@ -144,6 +144,51 @@ theorem C06_conflicting_redeclare_refused (nst : Nat) (dirs : List DirEnt) (tfs 
   rw [declare_conflict_refused hres (by rw [hmem]; exact hfind) hforce (by rw [hmem]; exact hnotfirst)
     (Or.inl hdiff)]
 
+/-- what is on disk besides the database records, as a command finds it: installation directories, extra files,
+table files kept elsewhere (what `Proc.fileContent` and `Proc.tableContent` look at; the view plays no part) -/
+def onDisk (w : World) : Proc := ⟨w.db, Spec.empty, w.dirs, [], w.extras, w.tfiles⟩
+
+/-- **A redeclaration with another table file is refused.**  After any history, `declare name version dir -m path`
+(no tag, no force; `dir` exists in a stack of the path; `path` is a table file kept elsewhere, with content `c`) of a
+(name, version, flavor) that the files of that stack declare with a table file of other content — or with none, or
+with one that is not there any more — ends with `EupsException`, and by `C06_refused_redeclare_is_noop` changes
+nothing.  (A table given as a stream is NOT compared: D39.) -/
+theorem C06_conflicting_table_refused (nst : Nat) (dirs : List DirEnt) (tfs : List TFile) (h : List WCmd) (u : User)
+    (a : DeclareArgs) (d q : Dir) (c : Nat) (o : Decl)
+    (hdir : a.dir = some d) (htag : a.tag = none) (htn : a.table = .path q) (hstack : a.stack = none)
+    (hforce : a.force = false) (hroot : d.root < nst)
+    (hex : (runHistory (World.init nst dirs tfs) h).dirs.any (fun e => e.dir == d) = true)
+    (hq : underUpsDb d.root q = false)
+    (hold : (runHistory (World.init nst dirs tfs) h).db.findDecl d.root a.name a.ver a.self = some o)
+    (hc : (onDisk (runHistory (World.init nst dirs tfs) h)).fileContent q = some c)
+    (hdiff : (onDisk (runHistory (World.init nst dirs tfs) h)).tableContent o ≠ some c) :
+    (stepG true (runHistory (World.init nst dirs tfs) h) (.run u (.declare a) none)).out = .refused := by
+  have hinv := history_inv nst dirs tfs h
+  have hn : (runHistory (World.init nst dirs tfs) h).nst = nst := history_nst _ h
+  generalize runHistory (World.init nst dirs tfs) h = w at hinv hn hex hold hc hdiff
+  obtain ⟨m, held, hv, hfb, _, hout, _⟩ := step_run_sub hinv u (.declare a)
+  rw [hout]
+  simp only [run]
+  have hres := resolveDeclare_explicit_path (nst := w.nst) (p := ⟨w.db, m, w.dirs, [], w.extras, w.tfiles⟩) hdir htag htn hstack
+    hex (hn ▸ hroot) hq hc
+  have hag : AgreeOnN m w.db d.root a.self a.name :=
+    hv d.root (hn ▸ hroot) a.self (hfb d.root (hn ▸ hroot) a.self (by simp [fallbacks, Cmd.self])) a.name
+  have hmem : (⟨w.db, m, w.dirs, [], w.extras, w.tfiles⟩ : Proc).mem = m := rfl
+  have hfind : m.findDecl d.root a.name a.ver a.self = some o := by
+    rw [findDecl_agree hag hinv.dbinv.ku]; exact hold
+  have ho := findDecl_some hfind
+  have hnotfirst : declareTag w.nst a m = none := by
+    unfold declareTag
+    rw [htag]
+    dsimp only
+    have := findProducts_ne_nil (m := m) (nst := w.nst) (self := a.self) (n := a.name) ho.1
+      (by rw [ho.2.1, hn]; exact hroot) ho.2.2.1 ho.2.2.2.2
+    cases hl : findProducts m w.nst a.self a.name none (allStacks w.nst) with
+    | nil => exact absurd hl this
+    | cons _ _ => rfl
+  rw [declare_conflict_refused hres (by rw [hmem]; exact hfind) hforce (by rw [hmem]; exact hnotfirst)
+    (Or.inr ⟨c, rfl, hdiff⟩)]
+
 /-- **Undeclaring a version removes it and every tag on it.**  After any history, when `undeclare` of a
 version (not the tag-only form, not a dry run, not killed) succeeds: the version it acted on — the one given,
 when one is given — was declared in the files of a stack, and afterwards neither that declaration nor any tag
@@ -371,6 +416,25 @@ example :
     (F.vfiles.map (fun x => x.recs.map (·.flav)), F.cfiles.map (fun x => x.recs.map (·.flav)),
      F'.vfiles.map (fun x => x.recs.map (·.flav)), F'.cfiles.map (fun x => x.recs.map (·.flav)))
       = ([[L, generic]], [[L, generic]], [[generic]], [[generic]]) := by decide
+
+/-- the hypotheses of `C06_conflicting_table_refused` are met, and a table given as a stream escapes the comparison
+(D39): after `declare p 1 <dir1>` (the table of the directory, content 0), `declare p 1 <dir1> -m t` with a table file
+`t` of content 1 kept elsewhere is refused; the same table given as a stream is answered ok, leaves the record as it
+was and saves the stream as an extra file; a streamed table IS compared — as an external file — once the extra
+directory exists -/
+example :
+    let p : Name := [112]; let L : Flav := [76]
+    let d1 : Dir := ⟨0, relDir L p [49]⟩
+    let t : Dir := ⟨0, [116]⟩
+    let dirs : List DirEnt := [⟨d1, p⟩]
+    let w := runHistory (World.init 1 dirs [⟨t, 1⟩]) [.run 1 (.declare ⟨L, p, [49], some d1, none, .dflt, none, false, false, []⟩) none]
+    let byPath := stepG true w (.run 1 (.declare ⟨L, p, [49], some d1, none, .path t, none, false, false, []⟩) none)
+    let byStream := stepG true w (.run 1 (.declare ⟨L, p, [49], some d1, none, .stream 1, none, false, false, []⟩) none)
+    let again := stepG true byStream.w (.run 1 (.declare ⟨L, p, [49], some d1, none, .stream 2, none, false, false, []⟩) none)
+    ((onDisk w).fileContent t = some 1 ∧ (onDisk w).tableContent ⟨0, p, [49], L, d1, .default⟩ = some 0 ∧
+      underUpsDb 0 t = false ∧ byPath.out = .refused) ∧
+    (byStream.out = .ok ∧ byStream.w.db = w.db ∧ byStream.w.extras = [⟨0, L, p, [49], tablePathOf p, 1⟩]) ∧
+    again.out = .refused := by decide
 
 /-- a plain history in which a tag really moves between stacks: `declare p 1 <dir in stack 0> -t beta`, then
 `declare p 2 <dir in stack 1> -t beta`: afterwards `beta` is in stack 1 only.  Killed right after its
